@@ -3,30 +3,53 @@
 A case is a flat *history* of ops that is consumed, one op at a time, by whoever is executing: the top
 level while no trigger runs, otherwise the body of the trigger the event has just called (same reading as
 lean/TwistedModel/Reactor/ThreePhase.lean).  ops: ab<k>/ad<k>/aa<k> addTrigger, xb<k>/xd<k>/xa<k>
-removeTrigger, f fireEvent, rn/rr/rd<d> the running trigger returns None / raises / returns Deferred d,
-d<d> / e<d> Deferred d .callback / .errback.
+removeTrigger, f fireEvent, rn/rr/rd<d> the running trigger returns None / raises / returns Deferred d
+(rk/rs/rb/rg: raises KeyboardInterrupt / SystemExit / a direct BaseException subclass / GeneratorExit),
+d<d> / e<d> Deferred d .callback / .errback — at top level or, when consumed by a running trigger, from inside
+that trigger's body (a later before-trigger firing the Deferred an earlier one returned).
+
+Case-level fields that do not change the model line (the model is over abstract trigger keys and Deferred
+numbers) but change what the real code is given:
+  reg  how key k becomes (callable, args, kwargs):  a (trig,(k,),{}) | k (trig,(),{"k":k}) | m (trig,(0,),{"k":k})
+       | f (a distinct function per key,(),{}) | x (by k % 4: a,k,m,f)
+  dk   string of digits, kind of Deferred d = dk[d % len(dk)]: 0 Deferred | 1 a Deferred subclass |
+       2 DeferredList([inner]) | 3 gatherResults([inner])  (2,3: the trigger returns the outer one, d<d>/e<d> fire inner)
+  dbg  1: run with defer.setDebugging(True)
 """
 import itertools
 import warnings
 
 from twisted.internet.base import ReactorBase, _ThreePhaseEvent
-from twisted.internet.defer import Deferred
+from twisted.internet import defer
+from twisted.internet.defer import Deferred, DeferredList, gatherResults
 from twisted.logger import globalLogBeginner
 from twisted.python.failure import Failure
 
 HEADLINE = ("TwistedProps.C12.registration_order_partial / phase_order_partial / during_waits_for_all_before_deferreds / "
-            "each_trigger_runs_at_most_once_partial / each_remaining_trigger_runs_once_partial")
+            "each_trigger_runs_at_most_once_partial / each_remaining_trigger_runs_once_partial / in_trigger_nothing_waits")
 RULE = ("histories of add/remove/fire/return/fire-Deferred ops (<= 20 triggers, keys mostly fresh, a stream with equal "
-        "re-registrations, a stream with overlapping firings), consumed by top level or by the running trigger; plus every "
-        "firing order of n<=4 (thorough: 5) Deferred-returning before-triggers; driven through _ThreePhaseEvent directly and "
-        "through ReactorBase.add/remove/fireSystemEvent; distinct = (mode, token kinds seen, #firings, waited?, overlap?, dup?)")
+        "re-registrations, a stream with overlapping firings), consumed by top level or by the running trigger — Deferreds "
+        "are fired at top level AND from inside trigger bodies (a later before-trigger firing what an earlier one returned); "
+        "plus every firing order of n<=4 (thorough: 5) Deferred-returning before-triggers and every split of n<=3 (4) of them "
+        "into fired-inside-the-next-before-trigger / fired-later-in-every-order; registrations are (callable,args,kwargs) "
+        "triples of five shapes (positional key, kwargs-only key, equal args + kwargs key, one function per key, mixed); "
+        "returned Deferreds are Deferred, a subclass, DeferredList or gatherResults objects; raising triggers raise "
+        "RuntimeError, KeyboardInterrupt, SystemExit, GeneratorExit or a direct BaseException subclass; a share runs with "
+        "Deferred debugging on; driven through _ThreePhaseEvent directly and through ReactorBase.add/remove/fireSystemEvent; "
+        "distinct = (mode, reg shape, token kinds seen, #firings, waited?, overlap?, dup?, non-plain Deferred?, "
+        "BaseException?, in-trigger firing?)")
 ASSUMES = [
-    "no nested firing: fireEvent()/Deferred.callback are not called from inside a trigger (ignored by model and harness alike)",
+    "no nested firing: fireEvent() is not called from inside a trigger, and once firings have overlapped Deferreds are not "
+    "fired from inside a trigger either (both ignored by model and harness alike); without overlap, Deferreds ARE fired "
+    "from inside triggers (model: fireDIn, theorem in_trigger_nothing_waits)",
     "theorems assume registrations are pairwise distinct as (callable,args,kwargs) — equal re-registrations are run on the "
     "real code by the oracle (finding equal-registrations)",
     "gate theorem assumes fireEvent() is not re-entered while an earlier firing still waits for its Deferreds "
     "(overlapping firings are still tied to the model; the oracle then checks run-at-most-once only)",
-    "triggers raise Exception subclasses (the context manager also swallows BaseException; not exercised)",
+    "a raising trigger raises synchronously from its body; the exception is any BaseException (RuntimeError, "
+    "KeyboardInterrupt, SystemExit, GeneratorExit, a direct BaseException subclass)",
+    "the model is over abstract keys / Deferred numbers: registration shape, Deferred class and Deferred debugging are "
+    "invisible to it (that the code treats them alike is exactly what the tie checks)",
 ]
 TRUSTED = ["flat-history encoding of trigger bodies (harness/corr/C12.py _Run) — the same reading as the model's Ctl"]
 MANIFEST = {
@@ -36,7 +59,10 @@ MANIFEST = {
             "during/after triggers run only after every before-trigger registered before the firing has run (and after-triggers "
             "after every such during-trigger); no during/after trigger runs before every Deferred returned by this firing's "
             "before-triggers has fired; when the firing is complete every trigger registered before it has run or been removed; "
-            "a raising trigger is indistinguishable from a returning one.  Model tied to base.py by differential runs.",
+            "a raising trigger is indistinguishable from a returning one; a Deferred fired from inside a trigger body only "
+            "becomes fired (nothing of the event waits on it then).  Model tied to base.py by differential runs over "
+            "histories with in-trigger Deferred firing, kwargs / per-function registrations, Deferred subclasses and "
+            "BaseException-raising triggers.",
     "note": "trusts Lean kernel, the hand-written model of _ThreePhaseEvent (differentially tied, event-level and reactor-level), "
             "the flat-history encoding of trigger bodies; equal re-registrations are a known finding",
     "technique": "Lean 4 proof (inductive invariant over histories) + differential tie + spec-level oracle",
@@ -50,6 +76,19 @@ except Exception:  # pragma: no cover
     pass
 
 PH = {"b": "before", "d": "during", "a": "after"}
+_MARK = "verif-trigger"
+
+
+class _TriggerAbort(BaseException):
+    """a direct BaseException subclass, as raised by a trigger"""
+
+
+class _SubDeferred(Deferred):
+    """a Deferred subclass, as returned by a before-trigger"""
+
+
+RAISES = {"rr": RuntimeError, "rk": KeyboardInterrupt, "rs": SystemExit, "rb": _TriggerAbort, "rg": GeneratorExit}
+REGS = "akmfx"
 
 
 class _Reactor(ReactorBase):
@@ -78,7 +117,12 @@ class _Run:
         self.depth = 0
         self.exhausted = False
         self.overlap = False
-        self.defs = {}
+        self.defs = {}          # d -> (outer: what the trigger returns, inner: what d<d>/e<d> fire)
+        self.reg = case.get("reg", "a")
+        self.dk = case.get("dk", "0") or "0"
+        self.dbg = bool(case.get("dbg"))
+        self.fns = {}           # k -> the function registered for key k (shape f)
+        self.fnkey = {}
         self.handles = {}       # (ph,k) -> [handle, ...] not yet used by a remove
         self.lasth = {}
         if self.mode == "reactor":
@@ -90,10 +134,35 @@ class _Run:
         else:
             self.ev = _ThreePhaseEvent()
 
-    # the one trigger callable; registrations differ by args=(k,)
-    def trig(self, k):
+    def triple(self, k):
+        """the (callable, args, kwargs) registered for key k — injective in k for every shape"""
+        shape = self.reg if self.reg != "x" else "akmf"[k % 4]
+        if shape == "a":
+            return self.trig, (k,), {}
+        if shape == "k":
+            return self.trig, (), {"k": k}
+        if shape == "m":
+            return self.trig, (0,), {"k": k}
+        if k not in self.fns:
+            def fn():
+                return self.trig(k)
+            self.fns[k] = fn
+            self.fnkey[fn] = k
+        return self.fns[k], (), {}
+
+    def keyof(self, t):
+        c, a, kw = t
+        if "k" in kw:
+            return kw["k"]
+        if c in self.fnkey:
+            return self.fnkey[c]
+        return a[0]
+
+    # the trigger body; which registration was called is read from what the event passed
+    def trig(self, *a, **kw):
         if self.exhausted:
             return None
+        k = kw["k"] if "k" in kw else (a[0] if a else "?")
         self.toks.append(f"r{k}")
         self.depth += 1
         try:
@@ -107,26 +176,38 @@ class _Run:
                     self.toks.append(".")
                     if op == "rn":
                         return None
-                    if op == "rr":
-                        raise RuntimeError("trigger failed")
-                    return self.deferred(int(op[2:]))
+                    if op in RAISES:
+                        raise RAISES[op](_MARK)
+                    return self.deferred(int(op[2:]))[0]
                 self.common(op)
         finally:
             self.depth -= 1
 
     def deferred(self, d):
         if d not in self.defs:
-            self.defs[d] = Deferred()
+            kind = self.dk[d % len(self.dk)]
+            if kind == "1":
+                inner = outer = _SubDeferred()
+            elif kind == "2":
+                inner = Deferred()
+                outer = DeferredList([inner], consumeErrors=True)
+            elif kind == "3":
+                inner = Deferred()
+                outer = gatherResults([inner], consumeErrors=True)
+            else:
+                inner = outer = Deferred()
+            self.defs[d] = (outer, inner)
         return self.defs[d]
 
     def common(self, op):
         c = op[0]
         if c == "a":
             ph, k = PH[op[1]], int(op[2:])
+            fn, fa, fkw = self.triple(k)
             if self.mode == "reactor":
-                h = self.r.addSystemEventTrigger(ph, "verif", self.trig, k)
+                h = self.r.addSystemEventTrigger(ph, "verif", fn, *fa, **fkw)
             else:
-                h = self.ev.addTrigger(ph, self.trig, k)
+                h = self.ev.addTrigger(ph, fn, *fa, **fkw)
             self.handles.setdefault((ph, k), []).append(h)
             self.lasth[(ph, k)] = h
             self.toks.append("+")
@@ -138,9 +219,9 @@ class _Run:
             elif (ph, k) in self.lasth:
                 h = self.lasth[(ph, k)]
             elif self.mode == "reactor":
-                h = ("verif", (ph, self.trig, (k,), {}))
+                h = ("verif", (ph,) + self.triple(k))
             else:
-                h = (ph, self.trig, (k,), {})
+                h = (ph,) + self.triple(k)
             with warnings.catch_warnings(record=True) as w:
                 warnings.simplefilter("always")
                 try:
@@ -163,10 +244,10 @@ class _Run:
                 else:
                     self.ev.fireEvent()
         elif c in "de":
-            if self.depth:
+            if self.depth and self.overlap:
                 self.toks.append("-")
             else:
-                D = self.deferred(int(op[1:]))
+                D = self.deferred(int(op[1:]))[1]
                 if D.called:
                     self.toks.append("!")
                 else:
@@ -181,6 +262,17 @@ class _Run:
 
     def go(self):
         try:
+            return self._go()
+        except BaseException as e:
+            if isinstance(e, Exception) or e.args != (_MARK,):
+                raise
+            return "!raised " + type(e).__name__     # a trigger's BaseException came out of the event
+
+    def _go(self):
+        was = defer.getDebugging()
+        try:
+            if self.dbg:
+                defer.setDebugging(True)
             while self.i < len(self.ops) and not self.exhausted:
                 op = self.ops[self.i]
                 self.i += 1
@@ -191,15 +283,17 @@ class _Run:
             log = ",".join(self.toks)
             if self.exhausted:
                 return log + "|incomplete"
-            ks = lambda l: ";".join(str(t[1][0]) for t in l)
+            ks = lambda l: ";".join(str(self.keyof(t)) for t in l)
             ev = self.ev
             return (f"{log}|B={ks(ev.before)}|D={ks(ev.during)}|A={ks(ev.after)}"
                     f"|S={int(ev.state == 'BEFORE')}|O={int(self.overlap)}")
         finally:
             self.exhausted = True   # late callbacks (none expected) do nothing
-            for D in self.defs.values():
-                if D.called:
-                    D.addErrback(lambda f: None)
+            defer.setDebugging(was)
+            for pair in self.defs.values():
+                for D in pair:
+                    if D.called:
+                        D.addErrback(lambda f: None)
             if self.mode == "reactor":
                 self.r._eventTriggers.pop("verif", None)
             del _captured[:]
@@ -210,7 +304,8 @@ def run_impl(c):
 
 
 def model_line(c):
-    return "run " + " ".join(o.replace("e", "d", 1) if o[0] == "e" else o for o in c["ops"])
+    # to the model an errback is a firing, and every raising trigger is `raise`
+    return "run " + " ".join(o.replace("e", "d", 1) if o[0] == "e" else ("rr" if o in RAISES else o) for o in c["ops"])
 
 
 # ---------------------------------------------------------------------------------------------
@@ -232,7 +327,8 @@ def oracle(c, out):
     dup = _has_dup_remove(ops)
 
     def bad(key, detail):
-        return {"key": "equal-registrations" if dup else key, "detail": detail + f" | ops={' '.join(ops)} | impl={out}"}
+        dress = "".join(f" {f}={c[f]}" for f in ("mode", "reg", "dk", "dbg") if c.get(f) not in (None, 0, "event", "a", "0"))
+        return {"key": "equal-registrations" if dup else key, "detail": detail + f" | ops={' '.join(ops)}{dress} | impl={out}"}
 
     if out.startswith("!raised"):
         return bad("exception-escaped", out)
@@ -350,8 +446,22 @@ def oracle(c, out):
 # cases
 
 def corpus():
-    C = lambda s, mode="event": {"mode": mode, "ops": s.split()}
+    C = lambda s, mode="event", **kw: {"mode": mode, "ops": s.split(), **kw}
     return [
+        # classes added by the white-box mutation audit (harness/mutants/C12)
+        C("ab1 ad2 f rd0 aa3 d0 rn rn", dk="1"),                      # a Deferred subclass gates the during phase
+        C("ab1 ab2 ad3 f rd0 rd1 d1 e0 rn", dk="23"),                 # DeferredList / gatherResults objects returned
+        C("ab1 ab2 ad3 f rd0 rd1 e1 d0 rn", "reactor", dk="32"),
+        C("ab1 ab2 ad3 aa4 f rk rs rn rn"),                           # BaseException out of before-triggers
+        C("ab1 ad2 ad3 aa4 aa5 f rb rk rg rs rn", "reactor"),         # … out of during/after-triggers
+        C("ab1 ab2 ab3 ad4 f rd0 d0 rn rn rn"),                       # before 2 fires the Deferred before 1 returned
+        C("ab1 ab2 ab3 ad4 aa5 f rd0 e0 rd1 rr d1 d7 rn rn", dk="01"),  # TwistedProps.C12.demoIn
+        C("ab1 ab2 ad3 f rd0 rd0 d0 rn rn"),                          # one Deferred returned twice, fired in-loop
+        C("ad1 ad2 ad3 xd3 f rn rn", reg="k"),                        # registrations differing only by kwargs
+        C("ab1 ab2 ab3 f xb3 rn rn", reg="m"),
+        C("ad1 ad2 aa3 xd1 f rn rn", "reactor", reg="f"),             # one function per trigger, no arguments
+        C("ab4 ab5 ab6 ab7 ad8 ad9 ad10 ad11 xd9 xb6 f xb7 rn rn rn rn rn", reg="x"),
+        C("ab1 ab2 ad3 f rd0 rd1 d1 e0 rn", dk="1", dbg=1),
         C("ab1 ad2 aa3 f rn rn rn"),
         C("ab1 ab2 ad3 aa4 f rd0 rd1 d1 d0 rn rn"),
         C("ab1 ad2 f rd0 ab9 xd2 ad5 d0 rn rn"),
@@ -418,6 +528,8 @@ def _random_case(rng, tier):
         # shaped like real use: register, fire, one body per pending trigger, Deferreds fire in any order
         pend = {"b": 0, "d": 0, "a": 0}
         dbase = [0]
+        returned = []      # Deferreds returned by the before-triggers of the current firing, not yet fired in-loop
+        p_in = rng.choice([0.0, 0.1, 0.3, 0.6])   # a trigger body fires a Deferred
 
         def body(p_def):
             for _ in range(rng.choice([0, 0, 0, 1, 1, 2])):
@@ -427,8 +539,19 @@ def _random_case(rng, tier):
                 else:
                     o = remove()
                 ops.append(o)
+            if rng.random() < p_in:
+                if returned and rng.random() < 0.7:
+                    d = returned.pop(rng.randrange(len(returned)))
+                else:
+                    d = dbase[0] + rng.randint(0, 4)
+                ops.append(f"{rng.choice('dde')}{d}")
             r = rng.random()
-            ops.append(f"rd{dbase[0] + rng.randint(0, 4)}" if r < p_def else ("rr" if r < p_def + 0.2 else "rn"))
+            if r < p_def:
+                d = dbase[0] + rng.randint(0, 4)
+                returned.append(d)
+                ops.append(f"rd{d}")
+            else:
+                ops.append("rr" if r < p_def + 0.2 else "rn")
 
         for rnd in range(rng.randint(1, 3)):
             dbase[0] = 5 * rnd if rng.random() < 0.8 else 0
@@ -442,9 +565,11 @@ def _random_case(rng, tier):
             if rng.random() < 0.1:
                 ops.append(f"d{rng.randint(0, 4)}")
             ops.append("f")
+            del returned[:]
             for _ in range(pend["b"] + rng.choice([0, 0, 1])):
                 body(0.45)
             pend["b"] = 0
+            del returned[:]
             ds = [dbase[0] + x for x in range(5)]
             rng.shuffle(ds)
             if rng.random() < 0.2:
@@ -518,6 +643,44 @@ def _random_case(rng, tier):
     return {"mode": mode, "ops": _padded(ops)}
 
 
+def _dress(c, rng):
+    """choose what the abstract keys / Deferred numbers / `raise` of a history are on the real code"""
+    r = rng.random()
+    if r < 0.3:
+        c["reg"] = "x"
+    elif r < 0.65:
+        c["reg"] = rng.choice("kmf")
+    if rng.random() < 0.5:
+        c["dk"] = "".join(rng.choice("0123") for _ in range(5))
+    if rng.random() < 0.6:
+        p = rng.choice([0.3, 0.6, 1.0])
+        c["ops"] = [rng.choice(["rk", "rs", "rb", "rg"]) if o == "rr" and rng.random() < p else o for o in c["ops"]]
+    if rng.random() < 0.03:
+        c["dbg"] = 1
+    return c
+
+
+def _inloop_cases(nmax):
+    """n before-triggers returning Deferreds 0..n-1 and one more before-trigger; every way of splitting the Deferreds
+    into those fired from inside the body of the NEXT before-trigger and those fired later at top level, in every order"""
+    idx = 0
+    for n in range(1, nmax + 1):
+        for mask in range(1, 2 ** n):
+            rest = [i for i in range(n) if not mask >> i & 1]
+            for perm in itertools.permutations(rest):
+                ops = [f"ab{i + 1}" for i in range(n + 1)] + ["ad50", "aa60", "f"]
+                for i in range(n + 1):
+                    if i > 0 and mask >> (i - 1) & 1:
+                        ops.append(f"{'de'[(idx + i) % 2]}{i - 1}")
+                    ops.append(f"rd{i}" if i < n else "rn")
+                for d in perm:
+                    ops.append(f"d{d}")
+                ops += ["rn", "rn"]
+                idx += 1
+                yield {"mode": "reactor" if idx % 3 == 0 else "event", "ops": ops,
+                       "reg": REGS[idx % 5], "dk": ["0", "1", "2", "3", "0123"][idx % 5]}
+
+
 def _perm_cases(nmax):
     for n in range(1, nmax + 1):
         base = [f"ab{i + 1}" for i in range(n)] + ["ad50", "aa60", "f"] + [f"rd{i}" for i in range(n)]
@@ -529,37 +692,54 @@ def _perm_cases(nmax):
             yield {"mode": "event" if (sum(perm) + n) % 3 else "reactor", "ops": ops}
 
 
+def _perm_variants(nmax):
+    # the same firing orders with non-plain Deferreds, other registration shapes and BaseException-raising during/after
+    for i, c in enumerate(_perm_cases(nmax)):
+        ops = c["ops"][:-2] + [["rk", "rs"], ["rb", "rn"], ["rn", "rg"]][i % 3]
+        yield {"mode": c["mode"], "ops": ops, "reg": REGS[i % 5], "dk": ["1", "2", "3", "3210"][i % 4]}
+
+
 def generate(rng, tier):
     yield from _perm_cases(4 if tier == "quick" else 5)
+    yield from _perm_variants(4 if tier == "quick" else 5)
+    yield from _inloop_cases(3 if tier == "quick" else 4)
     n = 5000 if tier == "quick" else 60000
-    for _ in range(n):
-        yield _random_case(rng, tier)
+    for i in range(n):
+        c = _random_case(rng, tier)
+        yield c if i % 4 == 0 else _dress(c, rng)     # a quarter stays in the plainest dress
 
 
 def search(rng, tier, disagreeing):
     yield from _perm_cases(5)
+    yield from _perm_variants(4)
+    yield from _inloop_cases(4)
     for c in disagreeing[:50]:
         ops = c["ops"]
         for i in range(len(ops)):
-            yield {"mode": c.get("mode", "event"), "ops": ops[:i] + ops[i + 1:]}
+            yield {**c, "ops": ops[:i] + ops[i + 1:]}
     for _ in range(5000):
-        yield _random_case(rng, tier)
+        yield _dress(_random_case(rng, tier), rng)
 
 
 def shrink(c):
     ops = c["ops"]
     mode = c.get("mode", "event")
     if mode != "event":
-        yield {"mode": "event", "ops": ops}
+        yield {**c, "mode": "event"}
+    for f, plain in (("dbg", 0), ("reg", "a"), ("dk", "0")):
+        if c.get(f, plain) != plain:
+            yield {k: v for k, v in c.items() if k != f}
     n = len(ops)
     for size in (n // 2, n // 4, 3, 2, 1):
         if size < 1:
             continue
         for i in range(0, n - size + 1, max(1, size // 2) if size > 1 else 1):
-            yield {"mode": mode, "ops": ops[:i] + ops[i + size:]}
+            yield {**c, "ops": ops[:i] + ops[i + size:]}
     for i, o in enumerate(ops):
-        if o in ("rr",) or o.startswith("rd"):
-            yield {"mode": mode, "ops": ops[:i] + ["rn"] + ops[i + 1:]}
+        if o in RAISES or o.startswith("rd"):
+            yield {**c, "ops": ops[:i] + ["rn"] + ops[i + 1:]}
+        if o in RAISES and o != "rr":
+            yield {**c, "ops": ops[:i] + ["rr"] + ops[i + 1:]}
 
 
 def tag(c, out):
@@ -569,5 +749,18 @@ def tag(c, out):
     nf = min(3, toks.count("F"))
     nr = sum(1 for t in toks if t[0] == "r")
     waited = any(a == "d" and b[0] == "r" for a, b in zip(toks, toks[1:]))
-    return (f"{c.get('mode', 'event')}:{kinds}:F{nf}:r{min(nr, 20) // 4}:{'wait' if waited else 'nowait'}:"
-            f"{parts[-1] if parts[-1] in ('O=1', 'incomplete') else 'O=0'}:{'dup' if _has_dup_remove(c['ops']) else ''}")
+    ops = c["ops"]
+    # a Deferred fired from inside a trigger body: a `d` token directly after `r<k>`, `+`, `x`, … of a running trigger is
+    # not recoverable from tokens alone, so read it off the depth of the history instead
+    depth, intrig = 0, False
+    for t in toks:
+        if t[0] == "r":
+            depth += 1
+        elif t == ".":
+            depth -= 1
+        elif t == "d" and depth > 0:
+            intrig = True
+    extra = (("sub" if set(c.get("dk", "0")) - {"0"} else "") + ("base" if any(o in RAISES and o != "rr" for o in ops) else "")
+             + ("in" if intrig else "") + ("dbg" if c.get("dbg") else ""))
+    return (f"{c.get('mode', 'event')}{c.get('reg', 'a')}:{kinds}:F{nf}:r{min(nr, 20) // 4}:{'wait' if waited else 'nowait'}:"
+            f"{parts[-1] if parts[-1] in ('O=1', 'incomplete') else 'O=0'}:{'dup' if _has_dup_remove(ops) else ''}:{extra}")
